@@ -133,6 +133,13 @@ def remake_with_end_markers(H):
                mps_unit_cell_width=H.unit_cell_width)
 
 
+def remake_from_W_tensors(H):
+    """The same W tensors and markers handed to the plain MPO constructor: the range of the terms is unknown."""
+    from tenpy.networks.mpo import MPO
+    return MPO(H.sites, [H.get_W(i, copy=True) for i in range(H.L)], H.bc, list(H.IdL), list(H.IdR), max_range=None,
+               mps_unit_cell_width=H.unit_cell_width)
+
+
 def viol(ctx, l, clause, hist, step, cfg, **detail):
     sig = dict(kind='replay', spec='MPOAlgebra', op=l['op'], clause=clause, mps=cfg['mps'], site=cfg['uc'][0])
     if 'method' in l:
@@ -189,11 +196,62 @@ def replay(ctx, cfg, hist, key):
             exact = op in ('make', 'make_pair', 'add', 'dagger', 'copy', 'sort_legcharges', 'group_sites') or op.startswith('is_')
             good = got is not None and got.shape == E.shape and (np.array_equal(got, E) if exact else
                                                                 hm.max_abs_diff(got, E) <= TOL * max(1.0, np.max(np.abs(E))))
+            # max_range: None when the spec says "unknown"; never shorter than the longest term
+            if op != 'group_sites':
+                mr = im.slots[s].max_range
+                if (not st['o']['rng'][s]['rk'] and mr is not None) or (mr is not None and mr < st['o']['rng'][s]['tr']):
+                    viol(ctx, l, 'max_range', hist, n, cfg, got=str(mr), spec=st['o']['rng'][s], slot=s)
+                    return False
             if not good:
                 again = op == 'plus_identity' and any(h['l']['op'] == 'plus_identity' and h['l']['s'] == l['s'] for h in hist[:n])
                 viol(ctx, l, 'slot', hist, n, cfg, first_differences=hm.first_diffs(got, E) if got is not None else None,
                      cause='input-is-result-of-plus_identity' if again else 'other')
                 return False
+    return True
+
+
+# constants of the truncation relations (calibrated margins; SVD compression works in canonical form, zip-up does not)
+TRUNC_C = {'SVD': dict(upper=2.0, lower=1.0), 'zip_up': dict(upper=10.0, lower=4.0)}
+
+
+def apply_truncated(ctx, l, hist, n, cfg, H, psi2, w):
+    """MPO.apply under genuine truncation, as two-sided relations between the exact O|psi> (spec), the returned state and
+    the reported truncation error eps:
+       LB  <=  |O psi - result|^2 / |O psi|^2  <=  upper * eps        and        eps >= LB / lower
+    LB = max over the bonds of the weight of the Schmidt values beyond chi_max of O|psi> (Eckart-Young; from the exact
+    Gram matrices supplied by the spec): no state of bond dimension chi_max is closer, and at least that weight had to
+    be discarded."""
+    meth, chi = l['method'], l['chi']
+    n2 = float(np.linalg.norm(w) ** 2)
+    LB = 0.0
+    for G in l['gram']:
+        Gm = np.array([[g(z) for z in row] for row in G])
+        ev = np.sort(np.linalg.eigvalsh(Gm))[::-1]
+        LB = max(LB, float(np.sum(ev[chi:])) / float(l['den']) / n2)     # the Gram matrices belong to the unnormalised O v
+    options = dict(compression_method=meth, m_temp=int(l['m_temp']), trunc_params=dict(chi_max=int(chi)))
+    err = H.apply(psi2, options)
+    got = full_vector(psi2)
+    rel = float(np.linalg.norm(got - w) ** 2) / n2
+    eps = float(err.eps)
+    c = TRUNC_C[meth]
+    detail = dict(rel_error=rel, reported_eps=eps, eckart_young_bound=LB, chi_result=[int(x) for x in psi2.chi])
+    if max(psi2.chi) > chi:
+        viol(ctx, l, 'truncated-bond-dimension', hist, n, cfg, **detail)
+        return False
+    if rel < LB - 1e-9:
+        viol(ctx, l, 'truncated-better-than-optimal', hist, n, cfg, **detail)
+        return False
+    if LB <= 1e-12 and meth == 'SVD':      # (zip-up truncates in a non-canonical gauge: it may discard weight needlessly)
+        if rel > 1e-8:
+            viol(ctx, l, 'applied-state', hist, n, cfg, cause='no-truncation-needed', **detail)
+            return False
+        return True
+    if LB > 1e-12 and eps < LB / c['lower'] - 1e-12:
+        viol(ctx, l, 'truncation-error-underreported', hist, n, cfg, **detail)
+        return False
+    if rel > c['upper'] * eps + 1e-9:
+        viol(ctx, l, 'truncation-error-does-not-cover-deviation', hist, n, cfg, **detail)
+        return False
     return True
 
 
@@ -207,13 +265,15 @@ def step(ctx, im, marks, l, hist, n, cfg):
         im.sites = M.lat.mps_sites()
         if l['markers'] == 'ends':
             H = remake_with_end_markers(H)
+        elif l['markers'] == 'wt':
+            H = remake_from_W_tensors(H)
         im.slots[l['s']] = H
         return True
     if op == 'make_pair':
         for s_, ds in (('A', l['declsA']), ('B', l['declsB'])):
             M = hm.build_model(cfg, ds)
             im.sites = M.lat.mps_sites()
-            im.slots[s_] = M.H_MPO
+            im.slots[s_] = remake_from_W_tensors(M.H_MPO) if s_ == 'B' and l.get('markersB') == 'wt' else M.H_MPO
         return True
     if op == 'add':
         im.slots[l['s']] = im.slots['A'] + im.slots['B']
@@ -263,7 +323,7 @@ def step(ctx, im, marks, l, hist, n, cfg):
         for first, second, which in ((HA, HB, 'A.is_equal(B)'), (HB, HA, 'B.is_equal(A)')):
             # unknown max_range (markers only at the ends): the documented default window is L + 2 L sites; the caller
             # has to say how far the terms reach
-            kw = dict(max_range=im.cells * first.L) if im.infinite and first.max_range is None else {}
+            kw = dict(max_range=im.cells * first.L) if im.infinite and None in (first.max_range, second.max_range) else {}
             got = bool(first.is_equal(second, **kw))
             if got != l['res']:
                 # classification only: the window is chosen from the max_range of the first operand alone
@@ -320,6 +380,8 @@ def step(ctx, im, marks, l, hist, n, cfg):
             return True
         if not np.any(w):
             return True  # O|v> = 0 cannot be normalised by the compression methods
+        if l.get('chi', 0) > 0:
+            return apply_truncated(ctx, l, hist, n, cfg, H, psi2, w)
         options = dict(compression_method=meth, combine=bool(l.get('combine', False)), trunc_params=dict(chi_max=64, svd_min=1e-14),
                        max_sweeps=8, min_sweeps=2, tol_theta_diff=1e-12, start_env_sites=0, m_temp=4, trunc_weight=1.0)
         err = H.apply(psi2, options)
@@ -404,7 +466,7 @@ def run_canary(ctx):
     A = hm.dense_from_mpo(M.H_MPO)
     e = [[int(r), int(c), int(A[r, c].real), 0] for r, c in np.argwhere(A != 0)]
     e[0][2] += 1
-    hist = [dict(l=dict(op='make', s='A', decls=[d], markers='all'), o=dict(A=dict(n=8, e=e), B=dict(n=0, e=[])))]
+    hist = [dict(l=dict(op='make', s='A', decls=[d], markers='all'), o=dict(A=dict(n=8, e=e), B=dict(n=0, e=[]), rng=dict(A=dict(rk=True, tr=0), B=dict(rk=True, tr=0))))]
     sub = core.Ctx('C11-canary', tier=ctx.tier, seed=ctx.seed)
     sub.known = []
     with contextlib.redirect_stdout(io.StringIO()):
@@ -429,7 +491,7 @@ def check(ctx):
                'compression methods are checked as relations: |O psi - result|^2 <= reported eps + 1e-8 (no truncation requested)')
     only = ctx.only
     if not only or 'mc' in only:
-        res = run_mc(ctx, 'MPOAlgebra-depth2', 'ConfigsQuick' if quick else 'ConfigsFull', 2, 0, 6 if quick else 3)
+        res = run_mc(ctx, 'MPOAlgebra-depth2', 'ConfigsQuick' if quick else 'ConfigsFull', 2, 0, 8 if quick else 3)
         runs = [res]
         if not quick:
             runs.append(run_mc(ctx, 'MPOAlgebra-depth3', 'ConfigsQuick', 3, 1, 4))
